@@ -81,8 +81,9 @@ def run(ctx):
         "transports: every function of graphql/handler/transport that calls CreateOperationContext is driven (POST, GET, multipart form, urlencoded form, application/graphql, multipart/mixed, SSE in-process with a ResponseRecorder; websocket over a real loopback connection, one connection per operation, both sub-protocols); what the client received is read back as the list of answers, the closing frame of a stream as the handler's nil")
     ok_steps = ctx.extract("PipelineSteps")
     ok_gates = ctx.extract("TransportGates")
-    ok_extract = ok_steps and ok_gates
-    proved = ok_extract and ctx.prove(props=["GqlgenVerif.Props.C03"])
+    ok_guards = ctx.extract("ParseGuards")
+    ok_extract = ok_steps and ok_gates and ok_guards
+    proved = ok_extract and ctx.prove(props=["GqlgenVerif.Props.C03", "GqlgenVerif.Props.C03Guards"])
     if ok_extract and not proved:
         ctx.cov["proof_failure"] = ctx.proof_failure
     if not ok_extract:
@@ -223,6 +224,7 @@ def run(ctx):
         "generator_classes": dict(classes),
         "routes": dict(routes),
         "correspondence_divergences": len(div),
+        "divergence_classes": dict(Counter(rows[n][4] for n, _, _ in div)),
         "samples": [rows[i][:3] for i in (3, 6, 9) if i < len(rows)],
         "traces_validated_against_impl": len(reqs),
     })
